@@ -944,7 +944,7 @@ impl<'a> Gen<'a> {
 
 fn run_case(out: &mut Out, rng: &mut Rng, world: &World, n_ops: usize, clean: bool) {
     let max_anc = *rng.pick(&[2u64, 3, 3, 4, 5, 25]);
-    let max_size = *rng.pick(&[600u64, 900, 1500, 2500, 1_000_000]);
+    let max_size = if clean && rng.chance(1, 2) { 1_000_000 } else { *rng.pick(&[600u64, 900, 1500, 2500, 1_000_000]) };
     let min_rbf = *rng.pick(&[1500u64, 1500, 2000, 1000]);
     let cfg = Cfg { max_anc, max_size, min_fee_rate: 1000, min_rbf_rate: min_rbf };
     out.begin_case(&format!("anc={max_anc} size={max_size} rbf={min_rbf} clean={}", clean as u8));
@@ -1036,6 +1036,15 @@ fn run_case(out: &mut Out, rng: &mut Rng, world: &World, n_ops: usize, clean: bo
             61..=67 => {
                 if !pooled.is_empty() {
                     let id = *g.rng.pick(&pooled);
+                    if g.clean {
+                        // keep the history free of the F2 pattern: the removed set must have no surviving parent
+                        let mut set = Sim::closure(&v, id, false);
+                        set.insert(id);
+                        let outside = set.iter().any(|y| v.links.get(y).map(|l| l.0.iter().any(|p| !set.contains(p))).unwrap_or(false));
+                        if outside {
+                            continue;
+                        }
+                    }
                     sim.exec(out, &format!("rmd {id}"));
                 }
             }
